@@ -66,6 +66,36 @@ let ext_opt z = if is_neg z then None else Some z
 let size_arg z = szw z   (* a size_t argument read from the case line (-1 = dynamic_extent) *)
 let count_opt z = let c = szw z in if z_eq c umax64 then None else Some c
 
+(* (first, last) slice letters: which bounds are integral constants (props/C19/gen_table.py BOUNDS, harness S<letter>) *)
+let mix_of = function
+  | 'P' | 'i' | 'm' -> Some (None, None)
+  | 'C' -> Some (Some 0, Some 2)
+  | 'K' | 'j' -> Some (Some 1, Some 3)
+  | 'a' -> Some (Some 0, None)
+  | 'b' | 'u' -> Some (Some 2, None)
+  | 'c' | 'h' | 'w' -> Some (None, Some 3)
+  | 'd' -> Some (None, Some 2)
+  | 'g' -> Some (Some 1, None)
+  | _ -> None
+let is_old_letter c = (c = 'F' || c = 'N' || c = 'P' || c = 'C' || c = 'K' || c = '-')
+(* the slice of dimension k as the library sees it (run-time values converted to the index type by the caller: conv)
+   and as the standard sees it (conv = identity) *)
+let mslice_of conv c kz lz =
+  match c with
+  | 'F' -> MFull
+  | _ -> (match mix_of c with
+          | Some (f, l) ->
+              MPair ((match f with Some v -> BConst (zi v) | None -> BRun (conv kz)),
+                     (match l with Some v -> BConst (zi v) | None -> BRun (conv lz)))
+          | None -> MIndex (conv kz))
+let mslice_dom s x =
+  match s with
+  | MFull -> true
+  | MIndex k -> (not (is_neg k)) && z_lt k x
+  | MPair (a, b) -> (not (is_neg (bval a))) && z_le (bval a) (bval b) && z_le (bval b) x
+let rs_toks t sub = [ "rs"; zs (lay_required LLeft t sub); zs (lay_required LRight t sub) ]
+let rs_spec sx = [ "rs"; zs (product sx); zs (product sx) ]
+
 let run_case op toks =
   let _tier = next_str toks in
   let kind = next_str toks in
@@ -395,28 +425,33 @@ let run_case op toks =
         let ls = next_zlist toks in
         let mk raw k kz =
           let c = if raw then (fun z -> z) else cast t in
-          match ss.[k] with
-          | 'F' -> SlFull
-          | 'P' -> SlPair (c kz, c (List.nth ls k))
-          | 'C' -> SlCPair (zi 0, zi 2)
-          | 'K' -> SlCPair (zi 1, zi 3)
-          | _ -> SlIndex (c kz) in
+          to_slice (mslice_of c ss.[k] kz (List.nth ls k)) in
         let exts = extents_list t e in
         let ml = join ("ok" :: List.concat (List.mapi (fun k kz ->
             let s = mk false k kz in
             [ zs (sub_first t s); (match sub_last t (List.nth exts k) s with Some v -> zs v | None -> "ub") ]) ks)) in
         let dom = all_repr t xs
-                  && List.for_all2 (fun (c, (kz, lz)) x ->
-                         match c with
-                         | 'F' -> true
-                         | 'P' -> (not (is_neg kz)) && z_le kz lz && z_le lz x
-                         | 'C' -> z_le (zi 2) x
-                         | 'K' -> z_le (zi 3) x
-                         | _ -> (not (is_neg kz)) && z_lt kz x)
+                  && List.for_all2 (fun (c, (kz, lz)) x -> mslice_dom (mslice_of (fun z -> z) c kz lz) x)
                        (List.mapi (fun k kz -> (ss.[k], (kz, List.nth ls k))) ks) xs in
         let sl = join ("ok" :: List.concat (List.mapi (fun k kz ->
             let s = mk true k kz in [ zs (first_ s); zs (last_ (List.nth xs k) s) ]) ks)) in
         (ml, if dom then sl else "na")
+      end else
+      if op = "subextp" && not (String.for_all is_old_letter ss) then begin
+        (* at least one pair-like slice of mixed kind / tuple / array form: ModelMix.v against SpecMix.v *)
+        let ls = next_zlist toks in
+        let msl = List.mapi (fun k kz -> mslice_of (cast t) ss.[k] kz (List.nth ls k)) ks in
+        let ml = match sub_extents_m t e msl with
+          | None -> "ub"
+          | Some sub ->
+              join ([ "ok"; nat_s (rank sub); nat_s (rank_dynamic sub.pat) ] @ List.map pat_tok sub.pat
+                    @ zl (extents_list t sub) @ rs_toks t sub) in
+        let ssl = List.mapi (fun k kz -> mslice_of (fun z -> z) ss.[k] kz (List.nth ls k)) ks in
+        let dom = all_repr t xs && List.for_all2 mslice_dom ssl xs in
+        let sp = msub_pattern ssl p and sx = msub_shape ssl xs in
+        let spl = join ([ "ok"; string_of_int (List.length sp); nat_s (rank_dynamic sp) ] @ List.map pat_tok sp @ zl sx
+                        @ rs_spec sx) in
+        (ml, if dom then spl else "na")
       end else
       if op = "subextp" then begin
         let ls = next_zlist toks in
@@ -431,7 +466,7 @@ let run_case op toks =
           | None -> "ub"
           | Some sub ->
               join ([ "ok"; nat_s (rank sub); nat_s (rank_dynamic sub.pat) ] @ List.map pat_tok sub.pat
-                    @ zl (extents_list t sub)) in
+                    @ zl (extents_list t sub) @ rs_toks t sub) in
         (* precondition of [mdspan.sub.extents], on the values as written in the case line *)
         let dom = all_repr t xs
                   && List.for_all2 (fun (c, (kz, lz)) x ->
@@ -447,18 +482,34 @@ let run_case op toks =
             | 'F' -> SlFull | 'P' -> SlPair (kz, List.nth ls k)
             | 'C' -> SlCPair (zi 0, zi 2) | 'K' -> SlCPair (zi 1, zi 3) | _ -> SlIndex kz) ks in
         let sp = sub_pattern ssl p and sx = sub_shape ssl xs in
-        let spl = join ([ "ok"; string_of_int (List.length sp); nat_s (rank_dynamic sp) ] @ List.map pat_tok sp @ zl sx) in
+        let spl = join ([ "ok"; string_of_int (List.length sp); nat_s (rank_dynamic sp) ] @ List.map pat_tok sp @ zl sx
+                        @ rs_spec sx) in
         (ml, if dom then spl else "na")
       end else
       let sl = List.mapi (fun k kz -> if ss.[k] = 'F' then None else Some (cast t kz)) ks in
       let sub = sub_extents t e sl in
       let ml = join ([ "ok"; nat_s (rank sub); nat_s (rank_dynamic sub.pat) ] @ List.map pat_tok sub.pat
-                     @ zl (extents_list t sub)) in
+                     @ zl (extents_list t sub) @ rs_toks t sub) in
       let dom = all_repr t xs
                 && List.for_all2 (fun s x -> match s with None -> true | Some k -> (not (is_neg k)) && z_lt k x) sl xs in
       let sp = keep_full sl p and sx = keep_full sl xs in
-      let spl = join ([ "ok"; string_of_int (List.length sp); nat_s (rank_dynamic sp) ] @ List.map pat_tok sp @ zl sx) in
+      let spl = join ([ "ok"; string_of_int (List.length sp); nat_s (rank_dynamic sp) ] @ List.map pat_tok sp @ zl sx
+                      @ rs_spec sx) in
       (ml, if dom then spl else "na")
+    end
+  | "SS" -> begin
+      (* detail::submdspan_static_extent of a strided_slice type: flag 1 = integral constant, 0 = run-time member *)
+      let _t = ity_of (next_str toks) in
+      let bd () = let c = next_int toks in let v = next_z toks in if c = 1 then BConst v else BRun v in
+      let o = bd () in
+      let e = bd () in
+      let d = bd () in
+      let _ct = next_str toks in
+      skip_semicolon toks;
+      let s = { ss_offset = o; ss_extent = e; ss_stride = d } in
+      let tok = function None -> "-1" | Some n -> zs n in
+      let dom = (not (is_neg (bval e))) && z_lt Z0 (bval d) in
+      (join [ "ok"; tok (strided_static s) ], if dom then join [ "ok"; tok (strided_static_spec s) ] else "na")
     end
   | "P" -> begin
       (* compile-time probe: layout_stride rank 1, extents<I, dyn>{x}, stride s, index i *)
